@@ -239,9 +239,11 @@ Proof.
   - destruct (find_node s src ent) as [n|]; [|reflexivity].
     destruct (find (edge_is src the_label dest) (edges s)); [|reflexivity]. destruct (n_room n); reflexivity.
   - rewrite fold_log_inv; [reflexivity|]. intros [s0 ms] sn; unfold ingest1.
+    destruct (match max_tombstone s0 (sn_id sn) with Some m => sn_mdate sn <=? m | None => false end); [reflexivity|].
     destruct (find_node_id s0 (sn_id sn)) as [old|]; [|reflexivity].
     destruct ((sn_mdate sn <? n_mdate old) || ((sn_mdate sn =? n_mdate old) && N.leb (sn_sig sn) (n_sig old))); reflexivity.
-  - rewrite fold_log_inv; [reflexivity|]. intros [s0 ms] t; reflexivity.
+  - rewrite fold_log_inv; [reflexivity|]. intros [s0 ms] t; unfold sdel_node1.
+    destruct (existsb (fun n => N.eqb (n_id n) (nd_id t) && negb (N.eqb (n_ent n) (nd_ent t))) (nodes s0)); reflexivity.
   - rewrite fold_log_inv; [reflexivity|]. intros [s0 ms] t; reflexivity.
 Qed.
 
@@ -725,11 +727,18 @@ Definition w_clean : c09case :=
                IBatch [MOp (Tick (D + 100))]; IBatch [MOp (LUpdate 1 1 (Some 2%N) 3)];
                IBatch [MOp (Tick (2 * D))]; IBatch [MOp (LDelNode 2 2 4)]; IBatch [MCompute]; ICheck].
 
-Lemma refuted_sync_update : spec_C09 w_sync_update (run_C09 w_sync_update) = false /\ known_C09 w_sync_update = [1].
+(* classes 1-3 were repaired in /repo: the former refutation witnesses now pass, with nothing known *)
+Lemma holds_sync_update : spec_C09 w_sync_update (run_C09 w_sync_update) = true /\ known_C09 w_sync_update = [].
 Proof. vm_compute. split; reflexivity. Qed.
-Lemma refuted_ref_deletion : spec_C09 w_ref_deletion (run_C09 w_ref_deletion) = false /\ known_C09 w_ref_deletion = [2].
+Lemma holds_ref_deletion : spec_C09 w_ref_deletion (run_C09 w_ref_deletion) = true /\ known_C09 w_ref_deletion = [].
 Proof. vm_compute. split; reflexivity. Qed.
-Lemma refuted_tombstone : spec_C09 w_tombstone (run_C09 w_tombstone) = false /\ known_C09 w_tombstone = [3].
+Lemma holds_tombstone : spec_C09 w_tombstone (run_C09 w_tombstone) = true /\ known_C09 w_tombstone = [].
+Proof. vm_compute. split; reflexivity. Qed.
+(* 6: still refuted: the newer version of a stored id arrives under another entity *)
+Definition w_entity_change : c09case :=
+  CDaily 1000 [IBatch [MOp (SNodes 1 [sn 1 1 5000 1; sn 2 1 6000 2])]; IBatch [MCompute]; ICheck;
+               IBatch [MOp (SNodes 1 [sn 1 2 (D + 7000) 3])]; IBatch [MCompute]; ICheck].
+Lemma refuted_entity_change : spec_C09 w_entity_change (run_C09 w_entity_change) = false /\ known_C09 w_entity_change = [6].
 Proof. vm_compute. split; reflexivity. Qed.
 Lemma refuted_history :
   spec_C09 w_history_onepass (run_C09 w_history_onepass) = true /\ known_C09 w_history_onepass = [] /\
@@ -805,6 +814,6 @@ Qed.
 
 Lemma full_refuted : ~ C09_full.
 Proof.
-  intro H. specialize (H w_sync_update). destruct refuted_sync_update as [E _].
-  rewrite E in H. assert (T : no_pending w_sync_update = true) by (vm_compute; reflexivity). specialize (H T). discriminate.
+  intro H. specialize (H w_entity_change). destruct refuted_entity_change as [E _].
+  rewrite E in H. assert (T : no_pending w_entity_change = true) by (vm_compute; reflexivity). specialize (H T). discriminate.
 Qed.
